@@ -145,8 +145,12 @@ def run_and_check(ck, jobs, clauses, label, known_attr=None, keep_pool=True):
         r['verdict'] = v
         sc, chs, _ = jobs_lookup(jobs, r['jid'])
         for c, idx in v.items():
-            mine = (c in clauses) if not isinstance(clauses, str) \
-                else c.startswith(clauses)
+            if isinstance(clauses, str):
+                mine = c.startswith(clauses)
+            elif isinstance(clauses, tuple):
+                mine = c.startswith(clauses)
+            else:
+                mine = c in clauses
             if not mine:
                 others[c] = others.get(c, 0) + 1
                 continue
